@@ -20,6 +20,13 @@ runs on the Rust LLAMA core and on the Rust machine runtime):
       memory) and the Rust machine runtime (CoreRuntime.step, SIO stub on/off, callees that the runtime services
       itself and returns from) (see c05_pairs.py).
 
+  (d) "hist": histories on ONE long-lived executor instance (Python Emulator; Rust LlamaExecutor session): the
+      code bytes at a few fixed addresses change between executions -- rewritten by the host through the memory
+      object/bus or by the program itself (store instructions + jump) -- keeping or changing the first byte;
+      every executed instruction is judged against get_instruction_info of the bytes in memory at that moment;
+      call episodes add the pair law with a return slot whose opcode alternates under a constant PRE byte
+      (see c05_hist.py).
+
 Oracle = the property statement only; the one piece of instruction semantics used is the README's reading of
 the condition suffix (JPZ/JRZ: Z=1, ..NZ: Z=0, ..C: C=1, ..NC: C=0), taken from the *rendered mnemonic*.
 """
@@ -36,6 +43,7 @@ from .. import pycore
 from .. import rsclient
 from .. import textparse as TP
 from . import c05_pairs as P
+from . import c05_hist as H
 from .c05_pairs import M20, addr_class, diffclass, s20  # noqa: F401
 
 PROPERTY = "C05"
@@ -50,7 +58,13 @@ RULE = ("single: (prefix|none) x control-flow opcode x address class x (C,Z) x o
         "64 KiB page end (or it straddles one / wraps 0xFFFFF); pair: always (a call and its return were "
         "executed). Distinct = single: (prefix, opcode, address class, CZ, operand class); other: (prefix, "
         "opcode, second byte, address class); pair: (core+config, flavour, site class, return class, S class, body "
-        "hash); programs ended by an executor error or a computed jump that missed its continuation are not counted.")
+        "hash); programs ended by an executor error or a computed jump that missed its continuation are not counted. "
+        "hist: 8-30 episodes on one executor instance (Python Emulator / Rust LlamaExecutor session); an episode "
+        "rewrites one of 1-3 fixed code addresses (host write or self-modifying store driver; new instruction / same "
+        "head, other operand bytes / other opcode under the same PRE byte / unchanged) and executes it; one case "
+        "per executed slot instruction, judged against the metadata of the bytes in memory at that moment. "
+        "Non-trivial = the address was executed before on the same instance. Distinct = (core, PRE+opcode, "
+        "address class, revisit class, host/store, CZ, instruction bytes).")
 
 CF_OPS: Tuple[int, ...] = tuple(range(0x01, 0x08)) + tuple(range(0x10, 0x20)) + (0xFE, 0xFF)
 TARGETLESS = ("FunctionReturn", "UnresolvedBranch", "IndirectBranch", "SystemCall", "ExceptionBranch",
@@ -87,6 +101,13 @@ ASSUMPTIONS = [
     "flag column ('- -'); for IR..RETI they are always compared (handlers deliberately modify F and IMR)",
     "which internal-memory cell JP (n) reads under which PRE byte is C03's subject; here only 'reported target "
     "== PC reached' is compared",
+    "histories: 'the static facts' of an executed instruction are get_instruction_info of the 16 bytes that the "
+    "executor's memory holds at its address immediately before the step (the statement ties the facts to the "
+    "instruction, not to an earlier content of its address); registers, PC and the halted flag are set by the host "
+    "between episodes as a test bench / loader would; an episode whose planned path was left, whose bytes are not "
+    "a valid encoding or whose step raised is not judged further; the Rust LLAMA core is judged against the same "
+    "(Python) metadata because there is only one get_instruction_info; near calls whose return address lies in the "
+    "next page are not generated in histories (the pair domain's known class)",
 ]
 
 
@@ -448,9 +469,51 @@ def _shard_pair(task: Tuple[int, int, str, int, str]) -> Report:
     return rep
 
 
+# ------------------------------------------------------------------------------------------------
+# (d) histories on one executor instance
+# ------------------------------------------------------------------------------------------------
+
+def _shard_hist(task: Tuple[int, int, str, int]) -> Report:
+    shard, seed, tier, count = task
+    rep = Report()
+    pool = H.build_pool(mix32(seed, shard, 0xD05), 160 if tier == "quick" else 400)
+    for j in range(count):
+        st = S.Stream(seed, 0xC05E, shard, j)
+        case0 = H.gen_history(st, tier != "quick", pool)
+        if case0 is None:
+            rep.filtered += 1
+            continue
+        for core in H.CORES:
+            case = {**case0, "core": core}
+            res = H.exec_history(case)
+            for v in res["viol"]:
+                rep.violate(v)
+            for lab in res["labels"]:
+                rep.labels[lab] += 1
+            rep.extra["hist_steps"] = rep.extra.get("hist_steps", 0) + res["steps"]
+            rep.extra[f"histories_{core}"] = rep.extra.get(f"histories_{core}", 0) + 1
+            for e in res["episodes"]:
+                labs = ["kind:hist", f"core:{core}", f"hist:{e['rv']}", f"hist:via-{e['via']}",
+                        f"hist:{e['rv']}:via-{e['via']}", f"hist-addr:{e['cls']}"]
+                labs += [f"hist-branch:{t}" for t in e["branches"]] or ["hist-branch:none"]
+                if e.get("moved"):
+                    labs.append("hist:pc-moved")
+                if e.get("err"):
+                    rep.case(None, labs)
+                    continue
+                nt = e["rv"] != "first-visit"
+                sample = None
+                if nt and rep.evaluations % 1501 == 11:
+                    sample = {"kind": "hist", "core": core, "text": e["mn"], "code": e["code"], "class": e["cls"],
+                              "revisit": e["rv"], "via": e["via"]}
+                key = f"h:{core}:{e['head']}:{e['cls']}:{e['rv']}:{e['via']}:{e['cz']}:{e['code']}"
+                rep.case(key if nt else None, labs, sample)
+    return rep
+
+
 def _task(task: Tuple[str, Any]) -> Report:
     kind, args = task
-    return {"single": _shard_single, "other": _shard_other, "pair": _shard_pair}[kind](args)
+    return {"single": _shard_single, "other": _shard_other, "pair": _shard_pair, "hist": _shard_hist}[kind](args)
 
 
 # ------------------------------------------------------------------------------------------------
@@ -459,6 +522,7 @@ def _task(task: Tuple[str, Any]) -> Report:
 
 def run(ctx: Ctx) -> Report:
     P.self_test()
+    H.self_test()
     rsclient.build()
     P.rt_self_test()
     tasks_s = [(i, ctx.seed, ctx.tier) for i in range(len(G.PRES))]
@@ -469,7 +533,11 @@ def run(ctx: Ctx) -> Report:
     per_pair = ctx.pick(220, 420)
     tasks_p = [(i, ctx.seed, ctx.tier, per_pair, "full") for i in range(n_pair)]
     tasks_p += [(i, ctx.seed, ctx.tier, per_pair, "rt") for i in range(n_pair)]
+    n_hist = ctx.pick(16, 64)
+    per_hist = ctx.pick(60, 120)
+    tasks_h = [(i, ctx.seed, ctx.tier, per_hist) for i in range(n_hist)]
     tasks = [("other", t) for t in tasks_o] + [("single", t) for t in reversed(tasks_s)] + [("pair", t) for t in tasks_p]
+    tasks += [("hist", t) for t in tasks_h]
     reports = ctx.pmap(_task, tasks)
     rep = ctx.merge_reports(reports)
     rep.rule = RULE
@@ -481,7 +549,9 @@ def run(ctx: Ctx) -> Report:
     n_exc = rep.labels.get("python-exception", 0)
     if n_exc:
         rep.inconclusive.append(f"{n_exc} case(s) raised a Python exception while executing and were not judged")
-    for need in ("kind:single", "kind:other", "kind:pair"):
+    for need in ("kind:single", "kind:other", "kind:pair", "kind:hist", "hist:revisit:operand-bytes-changed",
+                 "hist:revisit:opcode-changed-under-same-PRE", "hist:revisit:unchanged",
+                 "hist:revisit:operand-bytes-changed:via-store", "hist:pair"):
         if not rep.labels.get(need):
             raise HarnessError(f"no cases of {need} were generated")
     return rep
@@ -490,6 +560,8 @@ def run(ctx: Ctx) -> Report:
 def replay(ctx: Ctx, case: Dict[str, Any]) -> List[Violation]:
     if case.get("kind") == "pair":
         return list(P.exec_program(case)["viol"])
+    if case.get("kind") == "hist":
+        return list(H.exec_history(case)["viol"])
     return list(exec_single(case)["viol"])
 
 
@@ -499,6 +571,8 @@ def shrink(ctx: Ctx, v: Violation) -> Violation:
         return v
     if case.get("kind") == "pair":
         return P.shrink(v)
+    if case.get("kind") == "hist":
+        return H.shrink(v)
     # single/other: reset registers that do not matter, one at a time, while the fingerprint persists
     best = v
     cur = {**case, "regs": dict(case["regs"])}
